@@ -19,7 +19,7 @@ ID = "C12"
 LEVEL = "model_checking"
 RULE = (
     "group definitions: all 5 partitions of {1,2,3} x per block kind in {plain, merge, single-instance(singletons)} with at most one non-plain block (thorough: any) x every block order x 3 naming schemes "
-    "(68 definitions quick); bases: all predictions of G1(3,3) x 8 refs (thorough: G1(3,3)^2, G2(2,2,3) x 16) x input type {UNMATCHED, MATCHED, SEMANTIC}; repeated evaluate() on the same arrays; every fifth case additionally with labels {1,2,3} -> {300, 2, 65535} in uint16; "
+    "(68 definitions quick); bases: all predictions of G1(3,3) x 8 refs (thorough: G1(3,3)^2, G2(2,2,3) x 16) x input type {UNMATCHED, MATCHED, SEMANTIC}; repeated evaluate() on the same arrays; every fourth case additionally with a decision metric (IoU >= 0.6; plain and merge groups judged, whatever group was evaluated before them); every fifth case additionally with labels {1,2,3} -> {300, 2, 65535} in uint16; "
     "rejection: every proper subset S of {1,2,3} as the only group x all pairs of G1(3,3) x input types (must raise iff a label outside S is present), and length-2 maps over {-3..3} "
     "in int8/int64 semantic input (must raise iff a negative or undefined label is present). non-trivial = >= 2 groups and both restricted arrays non-empty for some group; distinct by (pair, definition, input type)"
 )
@@ -120,13 +120,13 @@ MATCHER = ["thr", "IOU", 0.5, False]
 IM = ("DSC", "IOU")
 
 
-def ungrouped(itype, pred, ref):
-    key = (itype, pred.shape, pred.tobytes(), ref.tobytes())
+def ungrouped(itype, pred, ref, dec=None):
+    key = (itype, pred.shape, pred.tobytes(), ref.tobytes(), repr(dec))
     if key not in _UNGROUPED:
         if len(_UNGROUPED) > 200000:
             _UNGROUPED.clear()
         try:
-            ev = make_evaluator(itype, matcher=None if itype == "MATCHED" else MATCHER, backend="default" if itype == "SEMANTIC" else "none", instance_metrics=IM)
+            ev = make_evaluator(itype, matcher=None if itype == "MATCHED" else MATCHER, backend="default" if itype == "SEMANTIC" else "none", instance_metrics=IM, decision=dec)
             res = ev.evaluate(pred.copy(), ref.copy(), verbose=False)["ungrouped"][0]
             _UNGROUPED[key] = ("OK", observe(res, metrics=IM))
         except Exception as e:
@@ -163,6 +163,9 @@ def run_case(case, acc):
     defn = definitions(case["tier"])[case["def"]]
     if case.get("lmap") is None and "lmap" not in case and (case["pi"] + case["ri"] + case["def"]) % 5 == 0:
         run_case({**case, "lmap": True}, acc)
+    if "dec" not in case and (case["pi"] * 3 + case["ri"] + case["def"]) % 4 == 0:
+        run_case({**case, "dec": ["IOU", 0.6]}, acc)
+    dec = case.get("dec")
     if case.get("lmap"):
         # unsigned also for semantic input: a single-instance group is evaluated as matched input, which (like ungrouped matched
         # input) only accepts unsigned arrays - signed semantic maps with such a group are rejected consistently by both
@@ -170,12 +173,12 @@ def run_case(case, acc):
         pred, ref = sc.relabel(pred, LMAP, dt), sc.relabel(ref, LMAP, dt)
         defn = [([LMAP[l] for l in labels], k) for labels, k in defn]
     names = NAMES[(case["def"] + case["pi"]) % len(NAMES)]
-    acc.case("diff", shape, case["pi"], case["ri"], case["def"], itype, bool(case.get("lmap")))
+    acc.case("diff", shape, case["pi"], case["ri"], case["def"], itype, bool(case.get("lmap")), repr(dec))
     tag = f"{itype} groups={[(names[i], l, k) for i, (l, k) in enumerate(defn)]} pred={pred.tolist()} ref={ref.tolist()}"
     p0, r0 = pred.copy(), ref.copy()
     acc.step()
     try:
-        ev = make_evaluator(itype, matcher=None if itype == "MATCHED" else MATCHER, backend="default" if itype == "SEMANTIC" else "none", instance_metrics=IM, groups=make_groups(defn, names))
+        ev = make_evaluator(itype, matcher=None if itype == "MATCHED" else MATCHER, backend="default" if itype == "SEMANTIC" else "none", instance_metrics=IM, groups=make_groups(defn, names), decision=dec)
         out = ev.evaluate(pred, ref, verbose=False)
         got = {g: observe(r[0], metrics=IM) for g, r in out.items()}
         # a second evaluation of the very same arrays must see the same input
@@ -198,7 +201,9 @@ def run_case(case, acc):
         rp_, rr_ = restrict(p0, labels, gk), restrict(r0, labels, gk)
         if np.any(rp_) and np.any(rr_):
             nontriv += 1
-        st, exp = ungrouped("MATCHED" if gk == "single" else itype, rp_, rr_)
+        if dec is not None and gk == "single" and itype != "MATCHED":
+            continue  # guard: the decision threshold of single-instance groups for semantic/unmatched input is not specified
+        st, exp = ungrouped("MATCHED" if gk == "single" else itype, rp_, rr_, dec)
         if st == "EXC":
             acc.count("ungrouped_reference_raised")
             continue
